@@ -27,7 +27,7 @@ const maxDepth = 3
 const absentID = uint64(1) << 62
 
 type sop struct {
-	k       byte // s u f p g c
+	k       byte // s u f p g c S(gs) U(gu)
 	c, e, t int
 	g       bool
 	a       []int
@@ -120,6 +120,14 @@ func parseOp(s string) (sop, bool) {
 		c, ok1 := num(1)
 		e, ok2 := num(2)
 		return sop{k: 'p', c: c, e: e, a: parseInts(p[3], "_")}, ok1 && ok2
+	case len(p) == 3 && (p[0] == "gs" || p[0] == "gu"):
+		e, ok1 := num(1)
+		c, ok2 := num(2)
+		k := byte('S')
+		if p[0] == "gu" {
+			k = 'U'
+		}
+		return sop{k: k, e: e, c: c}, ok1 && ok2
 	case len(p) == 3 && p[0] == "g":
 		e, ok := num(1)
 		return sop{k: 'g', e: e, a: parseInts(p[2], "_")}, ok
@@ -336,6 +344,20 @@ func (k *kase) runOp(o sop) {
 			}
 		}
 		k.tok("g:" + joinInts(grew, "."))
+	case 'S', 'U':
+		// direct calls on the exported global centre (a light centre is not an ILocalEventCenter)
+		c := k.centre(o.c)
+		if c == nil || c.loc == nil {
+			k.tok("bad")
+			return
+		}
+		if o.k == 'S' {
+			event.GetGlobalEC().Subscribe(k.name(o.e), c.loc)
+			k.tok("gs")
+		} else {
+			event.GetGlobalEC().Unsubscribe(k.name(o.e), c.loc)
+			k.tok("gu")
+		}
 	case 'c':
 		c := k.centre(o.c)
 		if c == nil {
@@ -754,8 +776,8 @@ func (g *gen) ev() int {
 	return 1 + g.h.R.Intn(3)
 }
 
-// sopStr draws one centre operation; w = weights (sub, unsub, unsubfn, pub, gpub, clear)
-func (g *gen) sopStr(w [6]int) string {
+// sopStr draws one centre operation; w = weights (sub, unsub, unsubfn, pub, gpub, clear, direct global sub, direct global unsub)
+func (g *gen) sopStr(w [8]int) string {
 	r := g.h.R
 	tot := 0
 	for _, x := range w {
@@ -763,7 +785,7 @@ func (g *gen) sopStr(w [6]int) string {
 	}
 	x := r.Intn(tot)
 	k := 0
-	for ; k < 6; k++ {
+	for ; k < 8; k++ {
 		if x < w[k] {
 			break
 		}
@@ -786,11 +808,17 @@ func (g *gen) sopStr(w [6]int) string {
 		return fmt.Sprintf("p.%d.%d.%s", g.centreIdx(), g.ev(), g.args())
 	case 4:
 		return fmt.Sprintf("g.%d.%s", g.ev(), g.args())
+	case 6:
+		g.h.Count("op.direct-global-subscribe")
+		return fmt.Sprintf("gs.%d.%d", g.ev(), g.centreIdx())
+	case 7:
+		g.h.Count("op.direct-global-unsubscribe")
+		return fmt.Sprintf("gu.%d.%d", g.ev(), g.centreIdx())
 	}
 	return fmt.Sprintf("c.%d", g.centreIdx())
 }
 
-func (g *gen) script(maxLen int, w [6]int) string {
+func (g *gen) script(maxLen int, w [8]int) string {
 	n := g.h.R.Intn(maxLen + 1)
 	parts := make([]string, n)
 	for i := range parts {
@@ -809,25 +837,25 @@ func (g *gen) genCase() []string {
 	g.nt = 6 + r.Intn(9)
 	lines := []string{"reset cs=" + kinds}
 	fam := r.Intn(10)
-	var sw, tw [6]int // script weights, top-level weights
+	var sw, tw [8]int // script weights, top-level weights
 	maxScript := 3
 	switch {
 	case fam < 3:
 		h.Count("family.quiet")
 		maxScript = 0
-		tw = [6]int{5, 3, 1, 6, 2, 1}
+		tw = [8]int{5, 3, 1, 6, 2, 1, 1, 1}
 	case fam < 7:
 		h.Count("family.reentrant")
-		sw = [6]int{4, 5, 1, 3, 2, 1}
-		tw = [6]int{6, 2, 1, 7, 2, 1}
+		sw = [8]int{4, 5, 1, 3, 2, 1, 0, 1}
+		tw = [8]int{6, 2, 1, 7, 2, 1, 1, 1}
 	case fam < 9:
 		h.Count("family.global")
-		sw = [6]int{3, 4, 0, 1, 3, 1}
-		tw = [6]int{6, 3, 0, 3, 6, 1}
+		sw = [8]int{3, 4, 0, 1, 3, 1, 1, 1}
+		tw = [8]int{6, 3, 0, 3, 7, 1, 3, 4}
 	default:
 		h.Count("family.clear-heavy")
-		sw = [6]int{2, 2, 0, 2, 1, 5}
-		tw = [6]int{6, 1, 0, 6, 2, 2}
+		sw = [8]int{2, 2, 0, 2, 1, 5}
+		tw = [8]int{6, 1, 0, 6, 2, 2}
 	}
 	// templates: 1..nt, code pointers: 0..7 shared between templates, 8..15 used by one template each
 	uniq := 8
@@ -889,6 +917,61 @@ func (g *gen) genCase() []string {
 			lines = append(lines, fmt.Sprintf("do ops=p.%d.%d.%d", c, e, 1))
 		}
 		lines = append(lines, fmt.Sprintf("drain c=%d n=50", c))
+	}
+	return lines
+}
+
+// directCase: the exported global centre used directly — Subscribe / Unsubscribe(name, centre) for registered and
+// unregistered centres, duplicates of both, before and after real GSubscribe calls — then global publications.
+func (g *gen) directCase() []string {
+	h, r := g.h, g.h.R
+	h.Count("family.direct-global")
+	kinds := []string{"L,L", "L,C", "C,L,L", "L,C,T"}[r.Intn(4)]
+	nc := strings.Count(kinds, ",") + 1
+	lines := []string{"reset cs=" + kinds}
+	for t := 1; t <= 6; t++ {
+		sc := ""
+		if t == 5 {
+			sc = fmt.Sprintf("gu.1.%d", r.Intn(nc))
+		}
+		if t == 6 {
+			sc = "u.0.1.6"
+		}
+		lines = append(lines, fmt.Sprintf("def t=%d b=%d f=%d s=%s", t, t, 7+t, sc))
+	}
+	pool := []string{}
+	for c := 0; c < nc; c++ {
+		for e := 1; e <= 2; e++ {
+			pool = append(pool, fmt.Sprintf("gs.%d.%d", e, c), fmt.Sprintf("gu.%d.%d", e, c), fmt.Sprintf("gu.%d.%d", e, c))
+		}
+	}
+	tag := 1
+	n := 6 + r.Intn(10)
+	for i := 0; i < n; i++ {
+		switch x := r.Intn(10); {
+		case x < 4:
+			op := pool[r.Intn(len(pool))]
+			if r.Intn(3) == 0 {
+				op = op + ";" + op // duplicate
+			}
+			lines = append(lines, "do ops="+op)
+		case x < 6 && tag <= 6:
+			lines = append(lines, fmt.Sprintf("do ops=s.%d.%d.%d.%d", r.Intn(nc), 1+r.Intn(2), tag, hx.B2i(r.Intn(4) != 0)))
+			tag++
+		case x < 7:
+			lines = append(lines, fmt.Sprintf("do ops=u.%d.%d.%d", r.Intn(nc), 1+r.Intn(2), 1+r.Intn(6)))
+		default:
+			lines = append(lines, fmt.Sprintf("do ops=g.%d.%d", 1+r.Intn(2), r.Intn(10)))
+		}
+	}
+	for e := 1; e <= 2; e++ {
+		lines = append(lines, fmt.Sprintf("do ops=g.%d.9", e))
+	}
+	for c := 0; c < nc; c++ {
+		lines = append(lines, fmt.Sprintf("q c=%d", c), fmt.Sprintf("drain c=%d n=50", c))
+	}
+	if r.Intn(3) == 0 {
+		lines = append(lines, "do ops=c.0", "do ops=g.1.3;g.2.3", "q c=0")
 	}
 	return lines
 }
@@ -1000,6 +1083,8 @@ func TestRun(t *testing.T) {
 		switch x := h.R.Intn(100); {
 		case x < 2:
 			lines = g.fullCase()
+		case x >= 92:
+			lines = g.directCase()
 		case x < 3:
 			h.Count("family.runservice")
 			lines = []string{"reset cs=L", fmt.Sprintf("rs n=%d", h.R.Intn(40))}
